@@ -187,28 +187,56 @@ def run(cx):
         b = cx.body(f"{RT}::merge")
         o = Origins(b)
         rc = b.calls_to(f"{RT}::route")
-        ob.floor(rc, 1, "self.route in merge", exact=True)
-        p = arg_origin(rc[0], 1, o)
-        sv = strip_identity(arg_origin(rc[0], 2, o))
-        okp = term_has_call(p, "HashMap::get") and mentions_field(p, "route_id_to_path") and mentions_param(p, "other") and term_has_call(p, "Iterator::next")
-        ob.require(okp, "merge/path", f"merge registers path {show(p)[:120]}", b.path)
-        oks = sv[0] == "field" and sv[2] == "1" and term_has_call(sv, "Iterator::next") and mentions_field(sv, "routes") and mentions_param(sv, "other")
-        ob.require(oks, "merge/route-value", f"merge registers service {show(sv)[:120]}", b.path)
-        # the id used for the path lookup is the id of that same map entry
-        g = b.calls_to("HashMap::get")
-        k = arg_origin(g[0], 1, o) if g else ("unknown",)
-        ob.require(len(g) == 1 and any(x[0] == "field" and x[2] == "0" for x in walk(k)) and term_has_call(k, "Iterator::next"), "merge/id-of-entry", f"path looked up by {show(k)[:100]}", b.path)
-        # every entry the iteration yields is registered: no path from one `next()` to the following one (or to the
-        # return) skips self.route - a route of the other router that is silently dropped answers NotFound afterwards
-        nx = [c for c in b.calls_to("Iterator::next") if c.target is not None]
-        ob.floor(nx, 1, "iteration over the other router's routes in merge", exact=True)
-        cur = nx[0].target
-        while b.term(cur)["k"] in ("goto", "falseedge", "falseunwind", "drop"):
-            cur = b.term(cur)["target"]
-        ob.require(b.term(cur)["k"] == "switch", "merge/loop-form", "merge: the iteration's next() is not followed by the Some/None test", b.path)
-        some = [t for t in b.succ(cur) if nx[0].bb in b.reachable_from(t)]
-        ob.require(bool(some) and all(b.all_paths_pass(t, set(b.return_blocks()) | {nx[0].bb}, {rc[0].bb}) for t in some), "merge/every-entry",
-                   "merge: a path from a yielded route entry to the next iteration (or to the return) skips self.route(..)", b.path)
+        kbs = [k for k in prog.children(b) if k.calls_to(f"{RT}::route")]
+        if not rc and len(kbs) == 1:
+            # internal-iteration form: `routes.into_iter().fold(self, |acc, (id, route)| acc.route(path(id), route))` / `for_each`
+            kb = kbs[0]
+            ko = Origins(kb)
+            krc = kb.calls_to(f"{RT}::route")
+            ob.floor(krc, 1, "route(..) in merge's closure", exact=True)
+            drv = [(c_, g_) for c_, g_ in calls_with_closures(prog, b, ("Iterator::fold", "Iterator::for_each")) if any(
+                strip_identity(g_(i_))[0] == "agg" and strip_identity(g_(i_))[2] == kb.path for i_ in range(len(c_.args)))]
+            ob.require(len(drv) == 1, "merge/every-entry", "merge: the closure that registers a route is not the body of one fold / for_each over the other router's routes", b.path)
+            if drv:
+                src = drv[0][1](0)
+                ob.require(term_has_call(src, "IntoIterator::into_iter") and mentions_field(src, "routes") and mentions_param(src, "other"), "merge/every-entry",
+                           f"merge iterates {show(src)[:100]} (not every route of the other router)", b.path)
+            ob.require(all(kb.dominates(krc[0].bb, r_) for r_ in kb.return_blocks()), "merge/every-entry", "merge: a path through the per-entry closure skips route(..)", kb.path)
+            def kexp(t_):
+                return expand_upvars(prog, kb, t_)
+            p = kexp(arg_origin(krc[0], 1, ko))
+            sv = strip_identity(arg_origin(krc[0], 2, ko))
+            okp = term_has_call(p, "HashMap::get") and mentions_field(p, "route_id_to_path") and mentions_param(p, "other")
+            ob.require(okp, "merge/path", f"merge registers path {show(p)[:120]}", kb.path)
+            oks = sv[0] == "field" and sv[2] == "1" and strip_identity(sv[1])[0] == "param"
+            ob.require(oks, "merge/route-value", f"merge registers service {show(sv)[:120]}", kb.path)
+            g = kb.calls_to("HashMap::get")
+            k = arg_origin(g[0], 1, ko) if g else ("unknown",)
+            ob.require(len(g) == 1 and any(x[0] == "field" and x[2] == "0" and strip_identity(x[1]) == strip_identity(sv[1]) for x in walk(k)), "merge/id-of-entry",
+                       f"path looked up by {show(k)[:100]}", kb.path)
+        else:
+            ob.floor(rc, 1, "self.route in merge", exact=True)
+            p = arg_origin(rc[0], 1, o)
+            sv = strip_identity(arg_origin(rc[0], 2, o))
+            okp = term_has_call(p, "HashMap::get") and mentions_field(p, "route_id_to_path") and mentions_param(p, "other") and term_has_call(p, "Iterator::next")
+            ob.require(okp, "merge/path", f"merge registers path {show(p)[:120]}", b.path)
+            oks = sv[0] == "field" and sv[2] == "1" and term_has_call(sv, "Iterator::next") and mentions_field(sv, "routes") and mentions_param(sv, "other")
+            ob.require(oks, "merge/route-value", f"merge registers service {show(sv)[:120]}", b.path)
+            # the id used for the path lookup is the id of that same map entry
+            g = b.calls_to("HashMap::get")
+            k = arg_origin(g[0], 1, o) if g else ("unknown",)
+            ob.require(len(g) == 1 and any(x[0] == "field" and x[2] == "0" for x in walk(k)) and term_has_call(k, "Iterator::next"), "merge/id-of-entry", f"path looked up by {show(k)[:100]}", b.path)
+            # every entry the iteration yields is registered: no path from one `next()` to the following one (or to the
+            # return) skips self.route - a route of the other router that is silently dropped answers NotFound afterwards
+            nx = [c for c in b.calls_to("Iterator::next") if c.target is not None]
+            ob.floor(nx, 1, "iteration over the other router's routes in merge", exact=True)
+            cur = nx[0].target
+            while b.term(cur)["k"] in ("goto", "falseedge", "falseunwind", "drop"):
+                cur = b.term(cur)["target"]
+            ob.require(b.term(cur)["k"] == "switch", "merge/loop-form", "merge: the iteration's next() is not followed by the Some/None test", b.path)
+            some = [t for t in b.succ(cur) if nx[0].bb in b.reachable_from(t)]
+            ob.require(bool(some) and all(b.all_paths_pass(t, set(b.return_blocks()) | {nx[0].bb}, {rc[0].bb}) for t in some), "merge/every-entry",
+                       "merge: a path from a yielded route entry to the next iteration (or to the return) skips self.route(..)", b.path)
         # route_layer closure: (id, Route::new(layer.layer(route)))
         lb = cx.body(f"{RT}::route_layer")
         lo = Origins(lb)
